@@ -30,10 +30,10 @@ SITE_GRAMMAR = "[decorator, clause, failure-kind, detail]"
 SPECS = [None, "meter", "U:second", "=A", "=B", "=A*B", "=A**2"]
 VALUES = ["2 meter", "300 centimeter", "5 second", "7"]
 # 1-2 parameters: additionally the dimensionless spec and a SCALED dimensionless value (50 % is the number 0.5)
-SPECS_SMALL = SPECS + ["", "U:"]
+SPECS_SMALL = SPECS + ["", "U:", "S:dimensionless", "S:km"]
 VALUES_SMALL = VALUES + ["50 percent"]
-UNITDIM = {"meter": "L", "centimeter": "L", "second": "T", "percent": None}
-FAC = {"meter": Fraction(1), "centimeter": Fraction(1, 100), "second": Fraction(1), "percent": Fraction(1, 100)}
+UNITDIM = {"meter": "L", "centimeter": "L", "second": "T", "percent": None, "kilometer": "L"}
+FAC = {"meter": Fraction(1), "centimeter": Fraction(1, 100), "second": Fraction(1), "percent": Fraction(1, 100), "kilometer": Fraction(1000)}
 
 
 def call(fn):
@@ -107,7 +107,7 @@ def classify(specs):
             else:
                 out.append(("dep", names))
         else:
-            out.append(("unit", s.replace("U:", "")))
+            out.append(("unit", {"S:dimensionless": "", "S:km": "kilometer"}.get(s, s.replace("U:", ""))))
     for k, p in out:
         if k == "dep" and not set(p) <= defined:
             return None
@@ -203,7 +203,7 @@ def run_wraps(acc, n, block, nblocks, tier):
     for si, specs in enumerate(spec_tuples):
         if si % nblocks != block:
             continue
-        real_specs = tuple((ureg.Unit(s[2:]) if s[2:] else ureg.dimensionless) if isinstance(s, str) and s.startswith("U:") else s for s in specs)
+        real_specs = tuple((ureg.Unit(s[2:]) if s[2:] else ureg.dimensionless) if isinstance(s, str) and s.startswith("U:") else (s[2:] if isinstance(s, str) and s.startswith("S:") else s) for s in specs)
         for ndef in range(n + 1):
             record = []
             for i in range(n):
@@ -260,7 +260,7 @@ def run_returns(acc):
     ureg = regs.default("Fraction")
     spec_tuples = [t for t in itertools.product(SPECS, repeat=2) if classify(t) is not None]
     for specs in spec_tuples:
-        real_specs = tuple((ureg.Unit(s[2:]) if s[2:] else ureg.dimensionless) if isinstance(s, str) and s.startswith("U:") else s for s in specs)
+        real_specs = tuple((ureg.Unit(s[2:]) if s[2:] else ureg.dimensionless) if isinstance(s, str) and s.startswith("U:") else (s[2:] if isinstance(s, str) and s.startswith("S:") else s) for s in specs)
         hasA = any(k == "def" and p == "A" for k, p in classify(specs))
         for ret in RET_SPECS:
             uses_ref = (ret == "=A") or (isinstance(ret, (list, tuple)) and "=A" in ret)
